@@ -17,7 +17,8 @@ RULE = ('keys: stage(8) method_name(2) span(3) snapshot(3) log_msg(2) condition(
         'stack_type(2) watches(2) metrics(3); quick = every pair of keys exhaustively with the others at default, thorough = the '
         'full product (186624) - each through convert_response and register_tracepoint, two hits driven; plus all lists of <=3 '
         'tracepoints over {A@L1, B@L1, C@L2, uninterpretable}; non-trivial = the combination asks for at least one effect and at '
-        'least one hit is rejected or at least one effect kind is absent')
+        'least one hit is rejected or at least one effect kind is absent'
+        ' ; capture stages act at completion with the captured result; method tracepoints without a name act on the function containing their line; response lists over {A, B, C, unknown stage U, unknown metric type V, nameless method N} compare where each snapshot was taken')
 ASSUMPTIONS = ['unknown span values, unknown frame_type and stack_type semantics are don\'t-cares (outside the statement)',
                'a method tracepoint without method_name (span=method or a method stage on a line) acts on entry of the function that contains its line',
                'capture stages: log, metrics and span act at the hit, the snapshot is delivered when the method returns / at the next line of the function, a method capture with the captured `return`']
